@@ -380,9 +380,9 @@ NP_OUT = ['numeric bit patterns through numpy cast / astype / tobytes kernels, N
           'real HDF5 I/O (h5py.File is a dict-like stub)']
 NP_SELF = ['venv:vf.stubs.selftest:selftest_rope_struct', 'venv:vf.stubs.selftest:selftest_npstub']
 
-_window = _pair('c11', 'window', (300, 600), 'every source kind (dict, structured copy path, structured fast path, HDF5, structured with permuted fields); total<=10**6 rows (symbolic; replays materialise up to 20000); '
+_window = _pair('c11', 'window', (300, 600), 'every source kind (dict, structured copy path, structured fast path, HDF5, structured with permuted fields, structured with permuted fields of one format = equal row layout); total<=10**6 rows (symbolic; replays materialise up to 20000); '
                 'any window 0<=from<to<=total or open; any chunk 0<=start<=stop<=n_rows or open', ['SourceDataWrapper.load_chunk', 'NumpyDataWrapper.load_chunk'],
-                replay=D + 'replay_window', validate=D + 'replay_window', shards=(5, 5)) + [
+                replay=D + 'replay_window', validate=D + 'replay_window', shards=(6, 6)) + [
     dict(fn=H + 'c11.wit_window_fast_path_offset', kind='witness', timeout=(60, 60), validate=D + 'replay_window')]
 _iteration = _pair('c11', 'iteration', (300, 900), 'every source kind; 1..6 (thorough 40) rows from any offset; input chunk 1..n+2 or None',
                    ['MultiFrameData.__next__', 'SourceDataWrapper.make_chunked_generator'], replay=D + 'replay_iteration',
@@ -438,6 +438,7 @@ SPECS['C19'] = {'functions': DATA_FUNCS + ['LogicalFile._make_multi_frame_data']
                                      'assignment, byteswap(inplace), sort, fill, |=, +=, *=); replays compare real arrays and the '
                                      'HDF5 file bit-for-bit before/after on each witness'],
                 'selftests': NP_SELF, 'obligations': _taint + _datadict + _twofiles}
+SPECS['C03']['obligations'] = SPECS['C03']['obligations'] + _taint     # a second write of the same arrays is only faithful if the first left them alone (round 6)
 
 
 def _find(pid, name):
